@@ -1059,17 +1059,23 @@ class ParallelFilter(FilterList):
     return reduce(operator.add, (filt(arg0, *args[1:], **kwargs)
                                  for filt in self.callables))
 
+  def _sum_filter(self):
+    # The parts are added as filters: a part can be a number or another
+    # filter list, for which "+" isn't the filter addition
+    return reduce(operator.add, (ZFilter(filt.numpoly, filt.denpoly)
+                                 for filt in self.callables))
+
   @property
   def numpoly(self):
     if not self.is_linear():
       raise AttributeError("Non-linear filter")
-    return reduce(operator.add, self).numpoly
+    return self._sum_filter().numpoly
 
   @property
   def denpoly(self):
     if not self.is_linear():
       raise AttributeError("Non-linear filter")
-    return reduce(operator.add, self).denpoly
+    return self._sum_filter().denpoly
 
   @elementwise("freq", 1)
   def freq_response(self, freq):
